@@ -131,6 +131,7 @@ fn run_once(c: &Case) -> Outcome {
     // first sentence of the statement: every event produced for a stream in another context is delivered
     if st.xsend_full > 0 {
         let (from, to, id) = st.lost_ids[0].clone();
+        let small = c.capacity.is_some_and(|x| x <= 4);
         return Outcome::fail(
             "cross-context-event-lost:queue-full",
             head(format!(
@@ -142,7 +143,10 @@ fn run_once(c: &Case) -> Outcome {
                 to,
                 st.max_depth
             )),
-        );
+        )
+        .class_if(small, "queue_full_loss:capacity<=4")
+        .class_if(!small, "queue_full_loss:capacity>4")
+        .class(format!("contexts={}", p.used_ctxs().len()));
     }
     if st.xsend_closed > 0 {
         return Outcome::fail("cross-context-send-to-closed-queue", head(format!("{} sends hit a closed channel", st.xsend_closed)));
@@ -243,11 +247,11 @@ fn main() {
     check.assume("thread schedules are sampled (seeded perturbation on top of the OS scheduler); a pass is evidence, not a proof over all schedules");
     let max_inputs = check.pick(150, 200);
     let clean = Topo { max_streams: 6, fanout: false, local_derived: true, pure_ingress: false, seq_over_remote_transform: false };
-    check.explore("ample_capacity", move || strat(clean, false, max_inputs), 260, 4000, run);
-    check.explore("small_capacity", move || strat(clean, true, max_inputs), 120, 1800, run);
+    check.explore("ample_capacity", move || strat(clean, false, max_inputs), 400, 6000, run);
+    check.explore("small_capacity", move || strat(clean, true, max_inputs), 160, 2400, run);
     // the fan-out class is a recorded finding; this small sub-check keeps looking for anything else in it
     let fan = Topo { max_streams: 6, fanout: true, local_derived: true, pure_ingress: false, seq_over_remote_transform: false };
-    check.explore("fanout", move || strat(fan, false, max_inputs), 40, 400, run);
+    check.explore("fanout", move || strat(fan, false, max_inputs), 40, 500, run);
     check.extra("executions", serde_json::json!(EXECUTIONS.load(std::sync::atomic::Ordering::Relaxed)));
     check.finish();
 }
